@@ -755,3 +755,209 @@ def run(ctx) -> None:  # noqa: F811
 def phi_free(sl, f) -> bool:
     """the second operand is the radial grid (alpha), not the azimuth"""
     return not any(p.startswith("phi") for p in sl.params)
+
+
+# ---- added after the mutation sweep: no kernel divides by a quantity that can vanish
+_inner_run_c23d = run
+
+_FINITE_EXCLUDED = {"Bullseye": "nested helper functions and loops; its divisors are constructor parameters whose "
+                                "domains are not stated", "CTF": "divides only inside the Wiener post-filter (outside "
+                                "the property's quantifier)"}
+
+
+def run(ctx) -> None:  # noqa: F811
+    from ..rules.divisors import NONZERO, VANISHES, DivisorAnalysis
+
+    ctx.rule("R-FINITE", "the envelope, aberration and aperture kernels of abtem/transfer.py never divide by a quantity "
+             "that can vanish for a legitimate input: every divisor (of /, //, %, /=, divide(), reciprocal(), **-k) is "
+             "provably non-zero — a non-zero constant, the electron wavelength (positive, C24), exp(...), a value range "
+             "excluding 0, a value guarded by a dominating test — and never one for which a zero is exhibited: a value "
+             "that is 0 at the optical axis alpha = phi = 0 with all distribution parameters (aberration coefficients "
+             "and angles, focal and angular spread) at their default 0, a sine / cosine of a free argument, or a boolean "
+             "array.  A division by zero yields inf or nan, which is neither inside [0, 1] nor bounded by the aperture; "
+             "the interval rule R-INTERVAL cannot see it because inf**2 and nan are absorbed by the squares")
+    ctx.assume("the electron wavelength is positive (property C24)")
+    repo = ctx.repo
+    mod = repo.modules["abtem.transfer"]
+    kernels = []
+    for c in mod.classes.values():
+        for defs in c.methods.values():
+            for f in defs:
+                if f.name == "_evaluate_from_angular_grid" and not f.is_abstract and c.name not in _FINITE_EXCLUDED:
+                    kernels.append(f)
+    kernels.append(repo.function("abtem.transfer", "hard_aperture"))
+    ctx.require(len(kernels) >= 8, f"R-FINITE found only {len(kernels)} kernels")
+    undecided = []
+    n_div = 0
+    for f in kernels:
+        ps = f.positional_params
+        grid = set(ps[1:3]) if ps and ps[0] == "self" else set(ps[:1])
+        df = DataFlow(f.node)
+        da = DivisorAnalysis(df, grid, lambda e: dotted(e) in ("self.wavelength", "self._wavelength"))
+        sites, lost = da.sites()
+        if lost:
+            undecided.append(f"{f.qualname}: {lost} division(s) inside a nested function / lambda")
+        bad = []
+        for at, d, whole in sites:
+            n_div += 1
+            verdict, why = da.classify(at, d)
+            if verdict == VANISHES and _patched_afterwards(f, df, at, whole):
+                # divide-then-repair idioms (x / alpha followed by x[origin] = 1, where(mask, a / b, c), nan_to_num)
+                # are correct alternative implementations this rule cannot judge
+                undecided.append(f"{f.qualname}: `{norm_text(whole)[:50]}` divides by a vanishing quantity but the result "
+                                 "is repaired afterwards (masked store / where / nan_to_num)")
+            elif verdict == VANISHES:
+                bad.append((whole, why))
+            elif verdict != NONZERO:
+                undecided.append(f"{f.qualname}: cannot decide whether the divisor `{why}` can vanish")
+        ctx.check(not bad, "R-FINITE", f"{f.qualname}:divisors", f.loc(bad[0][0]) if bad else f.where,
+                  f"{len(sites)} division(s), every divisor provably non-zero",
+                  (f"`{norm_text(bad[0][0])[:70]}` divides by a quantity that can vanish: {bad[0][1]} — the kernel becomes "
+                   "inf / nan there") if bad else "", key_detail="finite")
+    ctx.require(n_div >= 8, f"R-FINITE examined only {n_div} divisions")
+    # an undecided divisor must not pre-empt a violation found by the rules below: raised after they have run
+    _inner_run_c23d(ctx)
+    if undecided:
+        raise AnalysisError("R-FINITE: " + "; ".join(undecided[:3]))
+
+
+# ---- added after the mutation sweep: every aperture kernel compares alpha [rad] with its cutoffs in rad
+_inner_run_c23e = run
+
+
+def run(ctx) -> None:  # noqa: F811
+    from ..model import ClassInfo
+    from ..terms import FlowNormalizer
+
+    ctx.rule("R-CUTOFFUNIT", "sibling agreement of the aperture kernels (every non-abstract _evaluate_from_angular_grid of "
+             "a BaseAperture subclass): the angular grid alpha is in radians while the aperture parameters "
+             "(semiangle_cutoff, inner / hole cutoffs, central shift) are in mrad, so wherever a value derived from a "
+             "parameter `self.<p>` meets a value derived from alpha — as the other operand of a comparison, or as the "
+             "cutoff argument of soft_aperture / hard_aperture — it must be exactly 1/1000 * self.<p> (term normal form "
+             "with single definitions inlined).  A cutoff left in mrad or multiplied by 1000 keeps every value inside "
+             "[0, 1] but the aperture is no longer 0 beyond its cutoff")
+    repo = ctx.repo
+    base = repo.cls(MOD, "BaseAperture")
+    soft = repo.function(MOD, "soft_aperture")
+    hard = repo.function(MOD, "hard_aperture")
+    kernels = []
+    for c in repo.modules[MOD].classes.values():
+        if isinstance(c, ClassInfo) and c is not base and base in c.mro() and c.name != "CTF":
+            f = c.own_method("_evaluate_from_angular_grid")
+            if f is not None and not f.is_abstract:
+                kernels.append(f)
+    ctx.require(len(kernels) >= 5, f"R-CUTOFFUNIT found only {len(kernels)} aperture kernels")
+    milli = Fraction(1, 1000)
+    n_sinks = 0
+    pending = []
+    for f in kernels:
+        alpha = f.positional_params[1]
+        df = DataFlow(f.node)
+        sinks = []  # (node idx, parameter-side expression, description)
+        for node in df.cfg.nodes:
+            st = node.ast
+            if st is None or node.kind not in ("stmt", "test"):
+                continue
+            root = st.test if node.kind == "test" else st
+            if isinstance(root, (ast.FunctionDef, ast.ClassDef)):
+                continue
+            for n in walk_no_nested(root):
+                if isinstance(n, ast.Compare) and len(n.ops) == 1:
+                    l, r = n.left, n.comparators[0]
+                    for a, b in ((l, r), (r, l)):
+                        if _value_depends(df, node.idx, a, alpha) and not _value_depends(df, node.idx, b, alpha):
+                            sinks.append((node.idx, b, "compared with the angular grid"))
+                elif isinstance(n, ast.Call) and call_name(n) in ("soft_aperture", "hard_aperture"):
+                    callee = soft if call_name(n) == "soft_aperture" else hard
+                    bound = bind_args(n, callee)
+                    cut = next((p for p in callee.positional_params if "cutoff" in p), None)
+                    if cut is None or cut not in bound:
+                        raise AnalysisError(f"{f.qualname}: cutoff argument of {call_name(n)} not found")
+                    sinks.append((node.idx, bound[cut], f"passed as the cutoff of {call_name(n)}"))
+        bad = []
+        n_here = 0
+        for at, e, what in sinks:
+            poly = FlowNormalizer(df, at).norm(e)
+            attrs = {a for m in poly.terms for a, _ in m if a.startswith("self.")}
+            if not attrs:
+                continue  # a constant (`... < 0.0`) or a value without a parameter in it
+            n_here += 1
+            shape_ok = all(len(m) == 1 and m[0][0].startswith("self.") and m[0][1] == 1 for m in poly.terms)
+            if not shape_ok:
+                pending.append(f"{f.qualname}: `{norm_text(e)[:40]}` ({what}) normalises to {poly.key()[:60]}, not to a "
+                               "multiple of one parameter")
+                continue
+            for m, coef in poly.terms.items():
+                if coef != milli:
+                    bad.append((e, what, m[0][0], coef))
+        n_sinks += n_here
+        if not sinks or not n_here:
+            ctx.info("R-CUTOFFUNIT", f"{f.qualname}:cutoffs", f.where,
+                     "no parameter meets the angular grid in a comparison or an aperture call; not decided here")
+            continue
+        ctx.check(not bad, "R-CUTOFFUNIT", f"{f.qualname}:cutoffs in rad", f.loc(bad[0][0]) if bad else f.where,
+                  f"{n_here} parameter value(s) meeting alpha, each exactly 1/1000 * self.<p>",
+                  (f"`{norm_text(bad[0][0])[:40]}`, {bad[0][1]}, is {bad[0][3]} * {bad[0][2]} instead of 1/1000 * "
+                   f"{bad[0][2]}: alpha is in rad and {bad[0][2]} in mrad, the aperture edge sits at the wrong angle") if bad else "",
+                  key_detail="mrad-" + (bad[0][2].split(".")[-1].lstrip("_") if bad else ""))
+    ctx.require(n_sinks >= 6, f"R-CUTOFFUNIT examined only {n_sinks} parameter values")
+    _inner_run_c23e(ctx)
+    if pending:
+        raise AnalysisError("R-CUTOFFUNIT: " + "; ".join(pending[:2]))
+
+
+def _value_depends(df: DataFlow, at: int, e: ast.AST, param: str) -> bool:
+    """Does the VALUE of `e` depend on the parameter?  Like a backward slice, except that a local bound to
+    get_array_module(...) (the array-module handle `xp`) carries no value of its argument: `xp.inf` and
+    `xp.zeros(3)` do not depend on alpha although `xp = get_array_module(alpha)`."""
+    from ..cfg import uses_of
+
+    seen: set = set()
+
+    def var(v: str, node: int) -> bool:
+        if (v, node) in seen:
+            return False
+        seen.add((v, node))
+        rd = df.reaching(node, v)
+        for d in rd:
+            if d.kind == "param":
+                if v == param:
+                    return True
+                continue
+            if isinstance(d.value, ast.Call) and (call_name(d.value) or "").split(".")[-1] == "get_array_module":
+                continue
+            for u in df.def_value_uses(d):
+                if var(u, d.node):
+                    return True
+            if not d.strong and var(v, d.node):
+                return True
+        return False
+
+    return any(var(v, at) for v in uses_of(e, df.selfname))
+
+
+def _patched_afterwards(f, df: DataFlow, at: int, division: ast.AST) -> bool:
+    """The quotient is an argument of where()/nan_to_num(), or the variable it is assigned to (or one computed from
+    it) later receives a subscript store: the inf / nan may be repaired before the kernel is returned."""
+    st = df.cfg.nodes[at].ast
+    for c in walk_no_nested(st):
+        if isinstance(c, ast.Call) and last_attr(c) in ("where", "nan_to_num", "select", "piecewise") and any(
+                x is division for a in list(c.args) + [k.value for k in c.keywords] for x in ast.walk(a)):
+            return True
+    targets = set()
+    if isinstance(st, ast.Assign):
+        targets = {n.id for t in st.targets for n in ast.walk(t) if isinstance(n, ast.Name)}
+    elif isinstance(st, ast.AugAssign):
+        targets = {n.id for n in ast.walk(st.target) if isinstance(n, ast.Name)}
+    if not targets:
+        return False
+    for d in df.defs:
+        if d.kind != "store" or not df.cfg.dominates(at, d.node):
+            continue
+        if d.var in targets or targets & df.backward_slice(d.node, ast.Name(id=d.var, ctx=ast.Load())).visited:
+            return True
+    for c in walk_no_nested(f.node):
+        if isinstance(c, ast.Call) and last_attr(c) == "nan_to_num" and targets & {
+                n.id for a in c.args for n in ast.walk(a) if isinstance(n, ast.Name)}:
+            return True
+    return False
